@@ -1,7 +1,7 @@
 /-
 C05 — MCTP transport header and message-type byte of encoded packets.
 -/
-import Mctp.Lemmas.Encode
+import Mctp.Lemmas.EncodeApi
 import Mctp.Spec.Api
 namespace Mctp
 namespace C05
@@ -9,13 +9,22 @@ namespace C05
 theorem transport (c : Ctx) (dst : B) (e : Enc) (buf buf' : Bytes) (n : Nat)
     (h : encode c dst e buf = .ok (buf', n)) :
     Spec.transportOk c.address dst e (buf'.take n) = true := by
-  sorry
+  obtain ⟨t, hd, d, hb, -, -, hn, hp⟩ := encode_ok_take h
+  have ht := typeByte_body hb
+  unfold Spec.transportOk
+  rw [hp, packetPre_cons]
+  simp [byteAt]
+  exact ht
 
 /-- also for API misuse of the SPDM writer: the type byte is the 7-bit type, IC clear -/
 theorem type_byte_general (c : Ctx) (dst : B) (t : MsgType) (hd : Option Bytes) (d buf buf' : Bytes) (n : Nat)
     (h : encode c dst (.genSpdm t hd d) buf = .ok (buf', n)) :
     byteAt (buf'.take n) 8 = t.toByte &&& 0x7F#8 := by
-  sorry
+  obtain ⟨t', hd', d', hb, -, -, hn, hp⟩ := encode_ok_take h
+  simp [Enc.body] at hb
+  obtain ⟨rfl, rfl, rfl⟩ := hb
+  rw [hp, packetPre_cons]
+  simp [byteAt]
 
 end C05
 end Mctp
